@@ -22,6 +22,8 @@ type Foreign struct {
 	Table string `json:"table"`
 	Key   []Val  `json:"key"`
 	Set   []Val  `json:"set,omitempty"` // the row after the write (non-key columns); nil = deleted
+	// Before: 0 = after phase one; i >= 1 = inside the global transaction, right before branch i-1 (during phase one)
+	Before int `json:"before,omitempty"`
 }
 
 // Delivery is one phase-two rollback delivery of a branch.
@@ -29,6 +31,9 @@ type Delivery struct {
 	Branch int  `json:"branch"` // index in Plan.Branches
 	Fault  int  `json:"fault"`  // -1: none; k: the k-th database call of the rollback fails
 	Drop   bool `json:"drop,omitempty"`
+	// Hold: another connection holds a row lock while this delivery runs ("undo": the branch's undo_log row, as a
+	// concurrent delivery of the same rollback does; "row": a business row the branch wrote); released afterwards
+	Hold string `json:"hold,omitempty"`
 }
 
 // Plan is a generated case before it is turned into an engine scenario.
@@ -402,6 +407,10 @@ func genPlan(r *hutil.Rng, stream string, seed uint64, idx int) *Plan {
 	if r.Chance(1, 4) {
 		p.Config.Serializer = "protobuf"
 	}
+	if p.Config.Serializer == "" && r.Chance(1, 2) {
+		// Lz4 is the listed finding C08-lz4; protobuf runs stay uncompressed (one dimension at a time there)
+		p.Config.Compress = []string{"Gzip", "Zip", "Bzip2", "Deflate", "Zstd"}[r.Intn(5)]
+	}
 	dv, oc := !r.Chance(1, 4), !r.Chance(1, 3)
 	if stream == "c09" {
 		dv = true
@@ -449,7 +458,7 @@ func genPlan(r *hutil.Rng, stream string, seed uint64, idx int) *Plan {
 	// odd initial keys belong to the transaction, even ones to foreign writers (c01); c09/c10: everything is the transaction's
 	own := func(i int) bool { return !withForeign || i%2 == 1 || i > 6 }
 	nb := 1 + r.Intn(3)
-	if stream == "c09" || stream == "c10fault" || stream == "c10marker" || stream == "corrupt" {
+	if stream == "c09" || stream == "c10fault" || stream == "c10marker" || stream == "corrupt" || stream == "c10race" {
 		nb = 1
 	}
 	budget := 1 + r.Intn(5)
@@ -498,7 +507,12 @@ func genPlan(r *hutil.Rng, stream string, seed uint64, idx int) *Plan {
 			if i > 6 {
 				continue
 			}
-			p.Foreign = append(p.Foreign, g.foreignWrite(t, keyOf(t, i), r.Chance(1, 4)))
+			f := g.foreignWrite(t, keyOf(t, i), r.Chance(1, 4))
+			f.Before = r.Intn(len(p.Branches) + 2) // 0: after phase one; else before that branch, during phase one
+			if f.Before > len(p.Branches) {
+				f.Before = 0
+			}
+			p.Foreign = append(p.Foreign, f)
 		}
 		for b := len(p.Branches) - 1; b >= 0; b-- {
 			p.Deliver = append(p.Deliver, Delivery{Branch: b, Fault: -1})
@@ -508,6 +522,11 @@ func genPlan(r *hutil.Rng, stream string, seed uint64, idx int) *Plan {
 			for k := 0; k < 1+r.Intn(3); k++ {
 				p.Deliver = append(p.Deliver, Delivery{Branch: b, Fault: -1})
 			}
+		}
+	case "c10race":
+		p.Deliver = []Delivery{{Branch: 0, Fault: -1, Hold: []string{"undo", "undo", "row"}[r.Intn(3)]}, {Branch: 0, Fault: -1}}
+		if r.Chance(1, 3) {
+			p.Deliver = append(p.Deliver, Delivery{Branch: 0, Fault: -1})
 		}
 	case "c10fault":
 		p.Deliver = []Delivery{{Branch: 0, Fault: -1}} // the driver expands it: one plan per fault index
